@@ -46,12 +46,7 @@ pub struct SimpleEng;
 
 fn clock_of_tree(t: &Tree, n: usize) -> Value {
     let mut z = false;
-    let v = clock_arr(t, n, &mut z);
-    if z {
-        json!({"zero_entry": true, "clock": v})
-    } else {
-        v
-    }
+    clock_arr(t, n, &mut z)
 }
 
 impl Engine for SimpleEng {
